@@ -38,7 +38,8 @@ RECORD_ATTRS = {'x', 'y', 'z', 'L', 'M', 'N', 'u', 'opd', 'intensity', 'aoi'}
 
 # (besides these call kinds, every case ends with: caller-owned argument arrays, batch independence, and a hand-made
 #  RealRays bundle through SurfaceGroup.trace)
-KINDS = ['trace-hexapolar', 'trace-uniform', 'trace-cross', 'trace-ring', 'trace-line_y', 'generic-array', 'generic-scalar',
+KINDS = ['trace-hexapolar', 'trace-uniform', 'trace-cross', 'trace-ring', 'trace-line_y', 'trace-instance', 'generic-array',
+         'generic-scalar',
          'generic-mixed', 'paraxial-scalars', 'paraxial-rays', 'seidels', 'third-order', 'wavefront', 'opd-fan', 'fftpsf',
          'fftmtf', 'geometric-mtf', 'spot', 'encircled', 'ray-fan', 'rms-spot-vs-field', 'rms-wave-vs-field', 'distortion',
          'grid-distortion', 'field-curvature', 'pupil-aberration', 'operand-ray', 'operand-rms']
@@ -55,6 +56,12 @@ def gen_case(rng, tier, i):
         for f in spec['fields'][1:]:
             f[1], f[2] = round(float(rng.uniform(0.05, 0.4)), 4), round(float(rng.uniform(0.05, 0.4)), 4)
         classes.append('vignetting-factors')
+    s0 = spec['surfaces'][0]
+    if rng.random() < 0.12 and s0.get('type', 'standard') == 'standard' and s0.get('radius', 'inf') != 'inf':
+        # an exact paraboloid in front: rays parallel to its axis make the intersection equation linear (degenerate rays
+        # and ordinary ones then share batches)
+        s0['conic'] = -1.0
+        classes.append('front-paraboloid-exact')
     stale = bool(rng.random() < 0.2)
     if len(spec['fields']) >= 3 and rng.random() < 0.4:
         # fields added in non-ascending order (the order of the lens's field list is part of its state)
@@ -74,6 +81,14 @@ def gen_case(rng, tier, i):
         spec['polarization'] = dict(is_polarized=False) if rng.random() < 0.5 else \
             dict(is_polarized=True, Ex=1.0, Ey=0.5, phase_x=0.0, phase_y=0.3)
         classes.append('fresnel+polarization')
+    elif r < 0.36:
+        # polarization-dependent coatings on a lens whose polarization is still 'ignore': every trace is REJECTED
+        # (ValueError) - and a rejected call must leave the lens as it was
+        for s in spec['surfaces'][:-1]:
+            if s.get('medium') != 'mirror':
+                s['coating'] = 'fresnel'
+        spec['polarization'] = 'ignore'
+        classes.append('fresnel-without-polarization-state')
     axial = L.is_axial(spec)
     pool = list(KINDS)
     if not axial:
@@ -186,6 +201,18 @@ def do_call(kind, lens, case, args_log):
     def own(arr):
         args_log.append(arr)
         return arr
+    if kind == 'trace-instance':
+        # a Distribution object made and filled by the caller (num_rays left at its default, or given): the caller's points
+        # are the ones traced and stay what they were
+        from optiland.distribution import create_distribution
+        d = create_distribution('hexapolar')
+        d.generate_points(nr + 1)
+        x0, y0 = np.array(d.x, float).copy(), np.array(d.y, float).copy()
+        rays = lens.trace(0.0, Hy, wl, distribution=d) if case['seed'] % 2 else lens.trace(0.0, Hy, wl, len(x0), d)
+        args_log.instance_ok = bool(np.array_equal(np.asarray(d.x, float), x0) and np.array_equal(np.asarray(d.y, float), y0)
+                                    and np.size(rays.x) == x0.size)
+        sg = lens.surface_group
+        return [rays.x, rays.y, rays.z, rays.L, rays.M, rays.N, rays.opd, rays.i, sg.x, sg.opd, sg.intensity]
     if kind.startswith('trace-'):
         rays = lens.trace(0.0, Hy, wl, nr + 2, kind.split('-', 1)[1])
         sg = lens.surface_group
@@ -328,6 +355,15 @@ def check_case(case, rec):
             if kind == 'geometric-mtf' and 'is not finite' in str(e):
                 rec.cls('geometric-mtf-with-lost-rays-not-judged')     # histogram of a spot containing lost rays (C11 note)
                 continue
+            if 'Polarization must be set' in str(e) and 'fresnel-without-polarization-state' in classes:
+                # the documented rejection: the call must not have touched the lens
+                rec.cls('call-rejected-polarization-not-set')
+                d = snap_diff(base, deep_snapshot(lens))
+                rec.check('lens-unchanged', d is None, key='lens-unchanged:rejected-call',
+                          msg=f'call {kind} (step {step}) was rejected with ValueError but changed the lens: {d}')
+                rec.event('calls')
+                kinds_done.add(kind)
+                continue
             raise
         except ZeroDivisionError:
             rec.cls(f'{kind}-raised-ZeroDivisionError-not-judged')
@@ -339,6 +375,9 @@ def check_case(case, rec):
             raise
         rec.event('calls')
         rec.cls(f'call-{kind}')
+        if getattr(log, 'instance_ok', None) is not None:
+            rec.check('arguments-unchanged', bool(log.instance_ok), key='arguments-unchanged:distribution-instance',
+                      msg='Optic.trace(distribution=<Distribution object>) changed the caller\'s pupil points or traced another number of rays')
         if getattr(log, 'same_object', None) is not None:
             rec.check('repeatable', bool(log.same_object), key='repeatable:same-analysis-object-queried-twice',
                       msg=f'{kind}: querying one analysis object a second time returned different results / changed its stored data')
@@ -366,6 +405,11 @@ def check_case(case, rec):
     except ValueError as e:
         if any(m in str(e) for m in EXPECTED_ERRORS):
             rec.cls('chebyshev-domain-error-skipped')
+            return
+        if 'Polarization must be set' in str(e) and 'fresnel-without-polarization-state' in classes:
+            d = snap_diff(base, deep_snapshot(lens))
+            rec.check('lens-unchanged', d is None, key='lens-unchanged:rejected-call',
+                      msg=f'a rejected trace_generic changed the lens: {d}')
             return
         raise
     rec.sample(dict(case={k: v for k, v in case.items() if k != 'info'}))
@@ -421,6 +465,7 @@ def tail_checks(case, rec, lens, spec, vig):
     crowd = 3000
     cx = np.concatenate([Px, 1e-3 * np.cos(np.linspace(0, 6.28, crowd))])
     cy = np.concatenate([Py, 1e-3 * np.sin(np.linspace(0, 6.28, crowd))])
+    cx[-1] = cy[-1] = 0.0             # ... one of them the ray along the axis itself
     lens.trace_generic(np.zeros(n + crowd), np.concatenate([np.full(n, Hy), np.zeros(crowd)]), cx, cy, wl)
     cr = np.stack([sg.x, sg.y, sg.z, sg.L, sg.M, sg.N, sg.opd])[:, :, :n]
     cmp_batch('in a crowd of 3000 near-axis rays', cr, full)
